@@ -60,10 +60,29 @@ reg("C18", ["c18_bytebuf.c"],
     exhaustive={"quick": "all reachable states of buffers of size 1..5 under all operations with operand lengths 0..size+1",
                 "thorough": "all reachable states of buffers of size 1..5 under all operations with operand lengths 0..size+1"})
 
+reg("C14", ["c14_varint.c"],
+    rule="'values-*': encode/length/to_sink/decode(buffer)/decode(source) round trip for u32/s32 (stride 211 through "
+         "2^32 in quick, all 2^32 in thorough, plus 2^k +- 2) and u64/s64 (2^k +- 3, all one- and two-bit patterns "
+         "and complements, seeded random magnitudes); 'strings-N': every octet string of length N <= 7 (quick) / "
+         "<= 11 (thorough) over {00,01,7f,80,81,ff} and 'randstr' random strings of length 0..11, each placed in an "
+         "exact-size poisoned-arena block (size = used = N and size = N, used = 0) and given to all four buffer "
+         "decoders and all four source decoders. A signature is (generator, type, chunk); evaluations counts round "
+         "trips and decoder input strings.",
+    exhaustive={"quick": "all octet strings of length <= 7 over the 6-octet alphabet as decoder input",
+                "thorough": "all 2^32 values of u32 and s32; all octet strings of length <= 11 over the 6-octet alphabet"})
+
 SAN_NOTE = ("Trusted: gcc 12 ASan/UBSan runtime, the harness' reference model, the fork-per-unit runner. "
             "Assumes little-endian x86-64; decides only the executions listed in the evidence file.")
 
 MANIFEST_TEXT = {
+    "C14": dict(
+        technique="runtime monitoring: exhaustive/boundary execution under ASan/UBSan against a reference LEB128 codec; exact-size poisoned decoder inputs",
+        text="Every 32-bit value (thorough) and boundary/random 64-bit values go through encode, length query, sink "
+             "encoder and both decoders and are compared with a reference codec; every short octet string over a "
+             "continuation-heavy alphabet is decoded by buffer and source decoders from an exact-size poisoned block, "
+             "so a read past the buffer end is an ASan report and disagreement in verdict/value/consumed count is an "
+             "oracle failure.",
+        note=SAN_NOTE),
     "C18": dict(
         technique="runtime monitoring: state-space closure by executing the implementation + random histories, list-model oracle, ASan/UBSan with exact-size poisoned operands",
         text="Every reachable (offset, used, content) state of buffers of size 1..5 is produced by executing the real "
